@@ -170,7 +170,14 @@ def run(chk, replay=None):
                 fields = (('ig', float(res.observed_statistic), 'information gain'), ('t', float(res.quantile[0]), 't statistic'),
                           ('tcrit', float(res.quantile[1]), 't critical'), ('lo', float(res.test_distribution[0]), 'interval'),
                           ('hi', float(res.test_distribution[1]), 'interval'))
+                # zero (or numerically zero) sample variance - all events share one log-rate difference - makes the t statistic
+                # and the interval a 0/0 or x/0 matter of rounding: only gain and critical value are compared then
+                se = ev(x['t']['kids'][1], m['rates'])
+                igv = ev(x['ig'], m['rates'])
+                degenerate = se == 'undefined' or (isinstance(se, float) and se != se) or abs(se) <= 1e-7 * max(1.0, abs(igv))
                 for key, got, name in fields:
+                    if degenerate and key in ('t', 'lo', 'hi'):
+                        continue
                     want = ev(x[key], m['rates'])
                     if want == 'undefined' or (isinstance(want, float) and want != want):
                         continue
@@ -195,7 +202,7 @@ def run(chk, replay=None):
                     bad = ('gain not negated by swapping', {'ab': ig1, 'ba': ig2})
                 lo1, hi1 = map(float, a_.test_distribution)
                 lo2, hi2 = map(float, b_.test_distribution)
-                if not bad and all(v == v for v in (lo1, hi1, lo2, hi2)) and (abs(lo1 + hi2) > 1e-6 * max(abs(lo1), 1e-9) + 1e-10
+                if not bad and all(v == v and abs(v) < 1e300 for v in (lo1, hi1, lo2, hi2)) and (abs(lo1 + hi2) > 1e-6 * max(abs(lo1), 1e-9) + 1e-10
                                                                               or abs(hi1 + lo2) > 1e-6 * max(abs(hi1), 1e-9) + 1e-10):
                     bad = ('interval not mirrored by swapping', {'ab': [lo1, hi1], 'ba': [lo2, hi2]})
                 if not bad and m['same'] and abs(ig1) > 1e-12:
